@@ -13,6 +13,9 @@
 (*                                        codes; what the command does by item index mod Len(kinds) (kind "mute"       *)
 (*                                        prints nothing) and how many lines it prints at once by item index mod       *)
 (*                                        Len(talls); rows / columns of the preview window; wrap mode                  *)
+(*   reload  texts sync rev               Terminal.UpdateList took over the list of a NEW INPUT GENERATION (after       *)
+(*                                        reload(CMD) / reload-sync(CMD): first term.list hook event with another major  *)
+(*                                        revision): from here on item index i is the line texts[i + 1]                  *)
 (*   enq     q item nitems tag during     terminal announces a request (hook BEFORE the try-send and the Set); during  *)
 (*                                        = the action being executed, "" when the render loop announces it            *)
 (*   sig     immediately sent             outcome of the non-blocking send on killChan (cancel / kill)                 *)
@@ -30,6 +33,10 @@
 (*                                        lines of the last result that is certainly on the screen)                    *)
 (*   exit    how status survivors overlaps    fzf has exited (abort / accept / SIGTERM); process groups of preview     *)
 (*                                        commands still alive (neither zombie nor with SIGKILL pending)               *)
+(* THE LIST IS A FUNCTION OF THE INPUT GENERATION (FzfPreview: gen, LineAt): `gens` holds the item texts of every     *)
+(* generation so far, a request belongs to the generation on display when it was announced, and the quiescence         *)
+(* condition is stated on the LINE under the cursor - the content the present generation has at that index - not on    *)
+(* the index: after a reload the same index is another line, and the command that ran last must be the one for it.     *)
 (* Deviations of FzfPreview (findings F6, F18, F24) are accepted only as named steps; a session that reaches its end   *)
 (* only with their help is reported with the finding's signature, any other discrepancy is a plain rejection.          *)
 (*                                                                                                                    *)
@@ -43,7 +50,7 @@ CONSTANT DelayedSetsVersion      \* reqPreviewDelayed assigns t.previewer.versio
 TraceLog == ndJsonDeserialize(IOEnv.TRACE)
 None == [none |-> TRUE]
 
-VARIABLES l, sid, texts, tmpls, kinds, talls, H, W,
+VARIABLES l, sid, gens, tmpls, kinds, talls, H, W,
           issued,       \* announced requests not yet taken (or overwritten), oldest first
           expectSig,    \* an enq whose try-send has not been logged yet
           reqs,         \* reqs[v] = request taken as version v
@@ -59,13 +66,13 @@ VARIABLES l, sid, texts, tmpls, kinds, talls, H, W,
           pvSeq,        \* sequence number of the last event logged by the previewer goroutine itself (pick, cstart, cexit)
           quitSig,      \* outcome of the kill try-send of the exit path as far as logged: none | sent | dropped
           dev, phase    \* phase: run | exited
-vars == <<l, sid, texts, tmpls, kinds, talls, H, W, issued, expectSig, reqs, cur, nsent, nkill, lastDisp, idents, vis, wrap, pver, plv, pn, poff,
+vars == <<l, sid, gens, tmpls, kinds, talls, H, W, issued, expectSig, reqs, cur, nsent, nkill, lastDisp, idents, vis, wrap, pver, plv, pn, poff,
           pd, scr, started, pvSeq, quitSig, dev, phase>>
-sessVars == <<sid, texts, tmpls, kinds, talls, H, W>>
+sessVars == <<sid, gens, tmpls, kinds, talls, H, W>>
 winVars == <<idents, vis, wrap, pver, plv, pn, poff, pd, scr>>
 
 NoPd == [ver |-> 0, n |-> 0, off |-> 0, filled |-> FALSE, cv |-> 0]
-Init == /\ l = 1 /\ sid = -1 /\ texts = <<>> /\ tmpls = <<>> /\ kinds = <<>> /\ talls = <<>> /\ H = 0 /\ W = 0
+Init == /\ l = 1 /\ sid = -1 /\ gens = <<>> /\ tmpls = <<>> /\ kinds = <<>> /\ talls = <<>> /\ H = 0 /\ W = 0
         /\ issued = <<>> /\ expectSig = FALSE /\ reqs = <<>> /\ cur = None
         /\ nsent = 0 /\ nkill = 0 /\ lastDisp = None /\ idents = <<>> /\ vis = TRUE /\ wrap = FALSE /\ pver = 0 /\ plv = 0 /\ pn = 0 /\ poff = 0
         /\ pd = NoPd /\ scr = <<>>
@@ -75,7 +82,7 @@ Ev == TraceLog[l]
 Is(name) == l <= Len(TraceLog) /\ Ev.ev = name /\ l' = l + 1
 
 TBegin == /\ Is("begin")
-          /\ sid' = Ev.sid /\ texts' = Ev.texts /\ tmpls' = Ev.tmpls /\ kinds' = Ev.kinds /\ talls' = Ev.talls /\ H' = Ev.H /\ W' = Ev.W
+          /\ sid' = Ev.sid /\ gens' = <<Ev.texts>> /\ tmpls' = Ev.tmpls /\ kinds' = Ev.kinds /\ talls' = Ev.talls /\ H' = Ev.H /\ W' = Ev.W
           /\ issued' = <<>> /\ expectSig' = FALSE /\ reqs' = <<>> /\ cur' = None /\ nsent' = 0 /\ nkill' = 0 /\ lastDisp' = None
           /\ idents' = <<>> /\ vis' = TRUE /\ wrap' = Ev.wrap /\ pver' = 0 /\ plv' = 0 /\ pn' = 0 /\ poff' = 0
           /\ pd' = NoPd /\ scr' = [r \in 1..Ev.H |-> ""]
@@ -93,14 +100,16 @@ NLinesOK(i, n) == CASE KindOf(i) = "ticking" -> n >= HeadN(i)                   
                     [] KindOf(i) = "incr" -> n = HeadN(i) + 3                       \* three more lines, then it ends
                     [] OTHER -> n = HeadN(i)
 NStr(i) == IF NoItem(i) THEN "" ELSE ToString(i)
-TextOf(i) == IF NoItem(i) THEN "" ELSE texts[i + 1]
+Gen == Len(gens) - 1                                             \* the input generation on display (0: the initial input)
+TextOf(g, i) == IF NoItem(i) THEN "" ELSE IF i + 1 > Len(gens[g + 1]) THEN "?no such line?" ELSE gens[g + 1][i + 1]
 Plus(st) == IF st.sel = <<>> THEN <<st.item>> ELSE st.sel        \* {+}: the selection, or the current line if there is none
 RECURSIVE JoinN(_)
 JoinN(s) == IF s = <<>> THEN "" ELSE IF Len(s) = 1 THEN NStr(s[1]) ELSE NStr(s[1]) \o "," \o JoinN(Tail(s))
-RECURSIVE JoinF(_)
-JoinF(s) == IF s = <<>> THEN "" ELSE TextOf(s[1]) \o "," \o JoinF(Tail(s))
-Field(code, st) == CASE code = "n" -> NStr(st.item) [] code = "s" -> TextOf(st.item) [] code = "q" -> st.q
-                     [] code = "pn" -> JoinN(Plus(st)) [] code = "pf" -> JoinF(Plus(st)) [] code = "f" -> TextOf(st.item)
+RECURSIVE JoinF(_, _)
+JoinF(g, s) == IF s = <<>> THEN "" ELSE TextOf(g, s[1]) \o "," \o JoinF(g, Tail(s))
+(* st: terminal state [gen, item, q, sel] - the line is TextOf(st.gen, st.item) *)
+Field(code, st) == CASE code = "n" -> NStr(st.item) [] code = "s" -> TextOf(st.gen, st.item) [] code = "q" -> st.q
+                     [] code = "pn" -> JoinN(Plus(st)) [] code = "pf" -> JoinF(st.gen, Plus(st)) [] code = "f" -> TextOf(st.gen, st.item)
 Codes(tag) == tmpls[tag]
 HasCode(tag, c) == \E k \in 1..Len(Codes(tag)) : Codes(tag)[k] = c
 (* the identity line a command prints (and logs) for terminal state st: the tag, then one field per placeholder *)
@@ -113,7 +122,7 @@ AgreesWithRequest(vals, r) ==
     /\ Len(vals) = Len(Codes(r.tag)) + 1 /\ vals[1] = r.tag
     /\ \A k \in 1..Len(Codes(r.tag)) :
           LET c == Codes(r.tag)[k] IN
-          /\ (c \in {"n", "s", "f"} => vals[k + 1] = Field(c, [item |-> r.item, q |-> r.q, sel |-> <<>>]))
+          /\ (c \in {"n", "s", "f"} => vals[k + 1] = Field(c, [gen |-> r.gen, item |-> r.item, q |-> r.q, sel |-> <<>>]))
           /\ (c = "q" => vals[k + 1] = r.q)
 
 -------------------------------------------------------------------------------
@@ -165,7 +174,8 @@ InFlight == cur # None /\ ~cur.exited
 (* happen under t.mutex, so request k is overwritten in the one-slot box before request k+2 is announced: while a    *)
 (* command is in flight (the previewer will not look into the box before it is reaped) only the last two matter.     *)
 TEnq == /\ Is("enq") /\ phase = "run" /\ ~expectSig
-        /\ LET a == Append(issued, [q |-> Ev.q, item |-> Ev.item, nitems |-> Ev.nitems, tag |-> Ev.tag, seq |-> Ev.seq, during |-> Ev.during])
+        /\ LET a == Append(issued, [q |-> Ev.q, item |-> Ev.item, nitems |-> Ev.nitems, tag |-> Ev.tag, seq |-> Ev.seq, during |-> Ev.during,
+                                    gen |-> Gen])
            IN issued' = IF InFlight /\ Len(a) > 2 THEN SubSeq(a, Len(a) - 1, Len(a)) ELSE a
         /\ expectSig' = TRUE
         /\ UNCHANGED <<sessVars, reqs, cur, nsent, nkill, lastDisp, winVars, started, pvSeq, quitSig, dev, phase>>
@@ -291,6 +301,13 @@ TToggle == /\ Is("tp") /\ phase = "run"
            /\ IF vis THEN plv' = 0 /\ pn' = 0 ELSE UNCHANGED <<plv, pn>>
            /\ UNCHANGED <<sessVars, issued, expectSig, reqs, cur, nsent, nkill, lastDisp, idents, wrap, pver, poff, started, pvSeq, quitSig, dev, phase>>
 
+(* Terminal.UpdateList with a revision that is not compatible with the one on display: the items are replaced.  What *)
+(* follows from it for the preview (t.version++, reqList, refreshPreview) shows as the `enq` the render loop logs -     *)
+(* or does not log: the quiescence condition decides                                                                   *)
+TReload == /\ Is("reload") /\ phase = "run"
+           /\ gens' = Append(gens, Ev.texts)
+           /\ UNCHANGED <<sid, tmpls, kinds, talls, H, W, issued, expectSig, reqs, cur, nsent, nkill, lastDisp, winVars, started, pvSeq, quitSig, dev, phase>>
+
 -------------------------------------------------------------------------------
 (* Quiescence.  e.procs = process groups of preview commands alive in the process table; e.log = the records the    *)
 (* commands appended to the session's LOG themselves; e.overlaps = commands that found the session's lock held by   *)
@@ -312,7 +329,7 @@ OneAlive(e) == /\ e.overlaps = 0
 Spins == {"-", "\\", "|", "/"}
 FirstRowOK(row, base, n) ==
     LET info == ToString(poff + 1) \o "/" \o ToString(n)
-        must == n > H \/ poff > 0
+        must == (n > H \/ poff > 0) /\ pd.ver # 0          \* (pd.ver = 0: the window was laid out again and nothing painted since)
         With(ov) == row = Pad(base, W - Len(ov)) \o ov
     IN \/ ~must /\ row = base
        \/ With(info)
@@ -323,11 +340,14 @@ ScreenMatches(e) ==
     /\ Len(e.rows) = H
     /\ \/ RowsShow(e, scr, pn)
        \/ InFlight /\ \E n \in e.nlo..(pn - 1) : RowsShow(e, FullRows(IdOf(plv), n, poff, H, W, wrap), n)
-FinalState(e) == [item |-> e.cur, q |-> e.q, sel |-> e.sel]
+FinalState(e) == [gen |-> Gen, item |-> e.cur, q |-> e.q, sel |-> e.sel]
 LastReq == reqs[Len(reqs)]
+SameLine(r, r2) == SameReq(r, r2) /\ r.tag = r2.tag /\ TextOf(r.gen, r.item) = TextOf(r2.gen, r2.item)
 NItemsOf(e) == IF e.sel = <<>> THEN 2 ELSE Len(e.sel) + 1
+(* the request is the one for the LINE under the cursor: the same content (and the same index: {n}) *)
 Right(r, e) == /\ r.tag = e.tag
                /\ r.item = e.cur \/ (NoItem(r.item) /\ NoItem(e.cur))
+               /\ TextOf(r.gen, r.item) = TextOf(Gen, e.cur)
                /\ (HasCode(e.tag, "q") => r.q = e.q)
                /\ (HasCode(e.tag, "pn") \/ HasCode(e.tag, "pf") \/ HasCode(e.tag, "q") => r.nitems = NItemsOf(e))
 (* CODE-DERIVED (comment in buildPlusList): without a line under the cursor the preview is still run if the template *)
@@ -341,7 +361,7 @@ ShowsOutput(id, n) == /\ scr = FullRows(id, n, poff, H, W, wrap)
 Served(e) ==
     /\ ~expectSig /\ nkill <= nsent
     /\ reqs # <<>> /\ Right(LastReq, e)
-    /\ \A k \in 1..Len(issued) : SameReq(issued[k], LastReq) /\ issued[k].tag = LastReq.tag     \* nothing different is waiting
+    /\ \A k \in 1..Len(issued) : SameLine(issued[k], LastReq)                                   \* nothing different is waiting
     /\ IF Blank(e)
        THEN (* no line under the cursor, nothing to preview: no command, blank window *)
             /\ cur = None /\ e.procs = <<>> /\ lastDisp # None /\ lastDisp.v = Len(reqs) /\ lastDisp.nlines = 0
@@ -365,7 +385,7 @@ StaleRowsShown(e) == "StaleRows" \in dev /\ Served(e) /\ ~ShowsOutput(IdOf(plv),
 StaleAfterShow(e) ==
     /\ ~expectSig /\ nkill <= nsent
     /\ reqs # <<>> /\ LastReq.during \in {"toggle-preview", "show-preview"} /\ LastReq.tag = e.tag /\ ~Right(LastReq, e)
-    /\ \A k \in 1..Len(issued) : SameReq(issued[k], LastReq) /\ issued[k].tag = LastReq.tag
+    /\ \A k \in 1..Len(issued) : SameLine(issued[k], LastReq)
     /\ cur # None /\ cur.v = Len(reqs) /\ cur.started /\ cur.kills = 0
     /\ (cur.exited => e.procs = <<>>)
     /\ lastDisp # None /\ lastDisp.v = Len(reqs) /\ lastDisp.nlines > 0 /\ plv = Len(reqs) /\ ShowsOutput(IdOf(plv), pn)
@@ -395,10 +415,14 @@ TExit == /\ Is("exit") /\ phase = "run"
             \/ /\ Ev.survivors # <<>> /\ InFlight /\ cur.started /\ Ev.survivors = <<cur.pid>> /\ Ev.overlaps = 0
                /\ \/ quitSig = "dropped" /\ "LostKillAtExit" \in dev /\ UNCHANGED dev
                   \/ quitSig # "dropped" /\ (cur.kills = 0 \/ cur.kimm \/ quitSig = "none") /\ dev' = dev \cup {"ExitBeforeKill"}
+            \* (the pv.start hook comes AFTER cmd.Start: the kill was dropped while the command was being started, and the
+            \* process image disappeared between the start and its log line - the survivor is that command)
+            \/ /\ Len(Ev.survivors) = 1 /\ InFlight /\ ~cur.started /\ Ev.overlaps = 0
+               /\ quitSig = "dropped" /\ "LostKillAtExit" \in dev /\ UNCHANGED dev
          /\ phase' = "exited"
          /\ UNCHANGED <<sessVars, issued, expectSig, reqs, cur, nsent, nkill, lastDisp, winVars, started, pvSeq, quitSig>>
 
-Next == TBegin \/ TEnq \/ TSig \/ TPick \/ TStart \/ TKill \/ TCtx \/ TCExit \/ TDisp \/ TScroll \/ TWrap \/ TToggle \/ TQuiet \/ TExit
+Next == TBegin \/ TReload \/ TEnq \/ TSig \/ TPick \/ TStart \/ TKill \/ TCtx \/ TCExit \/ TDisp \/ TScroll \/ TWrap \/ TToggle \/ TQuiet \/ TExit
 Spec == Init /\ [][Next]_vars
 
 (* reported per session when its end is reached: with or without the help of a deviation action *)
